@@ -246,6 +246,16 @@ theorem merge_order_right (a b : List α) :
   simpa [mergeListsWOrdering] using h
 
 
+/-- corollary: the elements only `a` has form, in `a`'s order, a subsequence of the result -/
+theorem merge_exclusive_sublist_left (a b : List α) :
+    (a.filter (fun x => !b.contains x)).Sublist (mergeListsWOrdering a b) := by
+  rw [← merge_order_left]; exact List.filter_sublist
+
+/-- corollary: the elements only `b` has form, in `b`'s order, a subsequence of the result -/
+theorem merge_exclusive_sublist_right (a b : List α) :
+    (b.filter (fun x => !a.contains x)).Sublist (mergeListsWOrdering a b) := by
+  rw [← merge_order_right]; exact List.filter_sublist
+
 /-- without the duplicate-free hypothesis an element can be emitted more often than it occurs in
 either list's de-duplicated union (the real function does the same) -/
 theorem merge_dup_counterexample :
